@@ -2,6 +2,7 @@ package rules
 
 import (
 	"fmt"
+	"go/types"
 	"strings"
 
 	"golang.org/x/tools/go/ssa"
@@ -113,45 +114,25 @@ func ruleSigDoc(r *core.Run) {
 	if fn == nil {
 		return
 	}
-	res := r.Resolver(fn)
 	var clo *ssa.Function
-	for _, b := range fn.Blocks {
-		for _, ins := range b.Instrs {
-			c, ok := ins.(ssa.CallInstruction)
-			if !ok {
-				continue
-			}
-			name, _ := res.CalleeName(c.Common())
-			if !strings.HasSuffix(name, "NewDidManagerWithDid") {
-				continue
-			}
-			for _, a := range c.Common().Args {
-				v := a
-				if u, ok := v.(*ssa.UnOp); ok { // closure held in a local
-					if al, ok := u.X.(*ssa.Alloc); ok {
-						for _, ref := range *al.Referrers() {
-							if st, ok := ref.(*ssa.Store); ok && st.Addr == al {
-								v = st.Val
-							}
-						}
+	for _, fr := range frames(r, fn) {
+		res := r.Resolver(fr.Fn)
+		for _, b := range fr.Fn.Blocks {
+			for _, ins := range b.Instrs {
+				c, ok := ins.(ssa.CallInstruction)
+				if !ok {
+					continue
+				}
+				name, _ := res.CalleeName(c.Common())
+				if !strings.HasSuffix(name, "NewDidManagerWithDid") {
+					continue
+				}
+				for _, a := range c.Common().Args {
+					if _, isSig := a.Type().Underlying().(*types.Signature); !isSig {
+						continue
 					}
-				}
-				if ch, ok := v.(*ssa.ChangeType); ok {
-					v = ch.X
-				}
-				if mc, ok := v.(*ssa.MakeClosure); ok {
-					clo, _ = mc.Fn.(*ssa.Function)
-				}
-				// the lookup function may be produced by a helper that returns the closure
-				if hc, ok := v.(*ssa.Call); ok {
-					if h := hc.Call.StaticCallee(); h != nil && len(h.Blocks) > 0 {
-						for _, hb := range h.Blocks {
-							if ret, ok := hb.Instrs[len(hb.Instrs)-1].(*ssa.Return); ok && len(ret.Results) == 1 {
-								if mc, ok := ret.Results[0].(*ssa.MakeClosure); ok {
-									clo, _ = mc.Fn.(*ssa.Function)
-								}
-							}
-						}
+					if f := closureOfValue(r, fn, fr, a, 0); f != nil {
+						clo = f
 					}
 				}
 			}
@@ -191,6 +172,81 @@ func ruleSigDoc(r *core.Run) {
 // successful VerifyJWS on every path (no shortcut such as a cache keyed without
 // the payload), and the payload handed to VerifyJWS is derived from the bytes of
 // the proposal argument (the signature is over exactly that request).
+// closureOfValue: the function literal a function value stands for — through locals, conversions, helpers that
+// return the closure, and (in a helper frame) parameters bound at the call that leads there.
+func closureOfValue(r *core.Run, anchor *ssa.Function, fr frame, v ssa.Value, depth int) *ssa.Function {
+	if depth > 6 {
+		return nil
+	}
+	switch x := v.(type) {
+	case *ssa.MakeClosure:
+		f, _ := x.Fn.(*ssa.Function)
+		return f
+	case *ssa.Function:
+		return x
+	case *ssa.ChangeType:
+		return closureOfValue(r, anchor, fr, x.X, depth+1)
+	case *ssa.MakeInterface:
+		return closureOfValue(r, anchor, fr, x.X, depth+1)
+	case *ssa.UnOp:
+		if al, ok := x.X.(*ssa.Alloc); ok {
+			for _, ref := range *al.Referrers() {
+				if st, ok := ref.(*ssa.Store); ok && st.Addr == al {
+					if f := closureOfValue(r, anchor, fr, st.Val, depth+1); f != nil {
+						return f
+					}
+				}
+			}
+		}
+	case *ssa.Call:
+		if h := x.Call.StaticCallee(); h != nil && len(h.Blocks) > 0 {
+			for _, hb := range h.Blocks {
+				if ret, ok := hb.Instrs[len(hb.Instrs)-1].(*ssa.Return); ok && len(ret.Results) == 1 {
+					if f := closureOfValue(r, anchor, frame{Fn: h}, ret.Results[0], depth+1); f != nil {
+						return f
+					}
+				}
+			}
+		}
+	case *ssa.Parameter:
+		if p := parentFrame(r, anchor, fr); p != nil {
+			call := fr.Chain[len(fr.Chain)-1]
+			for j, q := range fr.Fn.Params {
+				if q == x && j < len(call.Common().Args) {
+					return closureOfValue(r, anchor, *p, call.Common().Args[j], depth+1)
+				}
+			}
+		}
+	}
+	return nil
+}
+
+// mkComponent: the value of field `name` in a rendered struct-literal term mk{...}.
+func mkComponent(t, name string) string {
+	i := strings.Index(t, name+":")
+	if i < 0 {
+		return ""
+	}
+	rest := t[i+len(name)+1:]
+	depth := 0
+	for k := 0; k < len(rest); k++ {
+		switch rest[k] {
+		case '(', '[', '{':
+			depth++
+		case ')', ']', '}':
+			if depth == 0 {
+				return rest[:k]
+			}
+			depth--
+		case ',':
+			if depth == 0 {
+				return rest[:k]
+			}
+		}
+	}
+	return rest
+}
+
 func ruleSigPath(r *core.Run) {
 	const id = "G-sigpath"
 	fnName := "sao/keeper.Keeper.verifySignature"
@@ -207,7 +263,7 @@ func ruleSigPath(r *core.Run) {
 		if !ok || len(ret.Results) != 2 {
 			continue
 		}
-		if c, isC := ret.Results[1].(*ssa.Const); !isC || c.Value != nil {
+		if !successReturnIn(r, fn, b) {
 			continue // returns an error value
 		}
 		n++
@@ -223,47 +279,30 @@ func ruleSigPath(r *core.Run) {
 		}
 	}
 	r.Floor("sig_success_returns", n, 1)
-	// payload provenance
+	// payload provenance: the GeneralJWS handed to VerifyJWS (in verifySignature or a helper under it) carries an
+	// encoding of the proposal argument's bytes
 	np := 0
-	for _, c := range fn.Blocks {
-		for _, ins := range c.Instrs {
-			call, ok := ins.(ssa.CallInstruction)
-			if !ok {
-				continue
-			}
-			name, _ := res.CalleeName(call.Common())
-			if !strings.HasSuffix(name, "DidManager.VerifyJWS") {
-				continue
-			}
-			args := call.Common().Args
-			arg := args[len(args)-1]
-			var al *ssa.Alloc
-			if u, ok := arg.(*ssa.UnOp); ok {
-				al, _ = u.X.(*ssa.Alloc)
-			}
-			key := core.Key(id, fnName, "payload is the proposal's bytes")
-			okP := false
-			if al != nil {
-				for _, ref := range *al.Referrers() {
-					fa, ok := ref.(*ssa.FieldAddr)
-					if !ok || fieldNameT(fa.X.Type(), fa.Field) != "Payload" {
-						continue
-					}
-					for _, r2 := range *fa.Referrers() {
-						if st, ok := r2.(*ssa.Store); ok {
-							np++
-							t := normT(res.Of(st.Val).String())
-							if strings.Contains(t, ".Marshal(#3)#0") {
-								okP = true
-							}
-						}
-					}
+	for _, fr := range frames(r, fn) {
+		fres := r.Resolver(fr.Fn)
+		for _, c := range fr.Fn.Blocks {
+			for _, ins := range c.Instrs {
+				call, ok := ins.(ssa.CallInstruction)
+				if !ok {
+					continue
 				}
-			}
-			if okP {
-				r.Discharge(id, key, r.P.Pos(call.Pos()), "GeneralJWS.Payload is an encoding of proposal.Marshal()")
-			} else {
-				r.Violate(id, key, r.P.Pos(call.Pos()), "the payload handed to VerifyJWS is not derived from the bytes of the proposal argument: the signature is not checked against this request")
+				name, _ := fres.CalleeName(call.Common())
+				if !strings.HasSuffix(name, "DidManager.VerifyJWS") {
+					continue
+				}
+				args := call.Common().Args
+				np++
+				key := core.Key(id, fnName, "payload is the proposal's bytes")
+				payload := mkComponent(fr.T(r, args[len(args)-1]), "Payload")
+				if strings.Contains(payload, ".Marshal(#3)#0") {
+					r.Discharge(id, key, r.P.Pos(call.Pos()), "GeneralJWS.Payload is an encoding of proposal.Marshal()")
+				} else {
+					r.Violate(id, key, r.P.Pos(call.Pos()), "the payload handed to VerifyJWS is not derived from the bytes of the proposal argument: the signature is not checked against this request")
+				}
 			}
 		}
 	}
